@@ -322,9 +322,10 @@ def run_compose(chk, n):
         chk.nontrivial(oa)
         if oa == ob:
             continue
-        # known region: an {% extends %}-based template is rendered INSIDE the render of another
-        # {% extends %}-based template (component in component, or anything in an extends-based page) and
-        # the two define a common block name (always so when a component is nested in itself)
+        # known region (coarse, for this random stream): at least two {% extends %}-based template instances
+        # that define a common block name take part in the render (the page counts as one).  The shapes in
+        # which no extends-based template is rendered inside another one are checked strictly by the
+        # directed stream.
         def blocknames(nodes, base):
             if not (nodes and nodes[0]["t"] == "extends"):
                 return set()
@@ -333,16 +334,16 @@ def run_compose(chk, n):
         ext = {d["name"]: blocknames(d["template"], d["name"] + "_base") for d in famprog["lib"]
                if d["template"] and d["template"][0]["t"] == "extends"}
         page_blocks = blocknames(famprog["entry"]["page"], "page_base")
-        sp = core.drive([dict(tplgen.for_model(flat), op="specrender", fuel=rc.FUEL)])[0]
-        nested = False
-        for path in sp.get("paths", []):
-            anc = (["__page__"] if page_blocks else []) + path[:-1]
-            x = path[-1]
-            if x in ext:
-                for y in anc:
-                    yb = page_blocks if y == "__page__" else ext.get(y)
-                    if yb and (yb & ext[x]):
-                        nested = True
+        inst = []
+        if page_blocks:
+            inst.append(page_blocks)
+        for c, names_ in ext.items():
+            k_ = max(str(oa).count("«%s#" % c), str(ob).count("«%s#" % c))
+            inst += [names_] * k_
+        nested = any(a_ & b_ for i_, a_ in enumerate(inst) for b_ in inst[i_ + 1:])
+        if "«" not in str(oa) or "«" not in str(ob):
+            # an error outcome shows no instances: fall back to the static reading of the program
+            nested = bool(ext)
         if nested:
             chk.known_hit("block-context-shared-between-components", {"family": {k: p_family(v) for k, v in fam.items()}})
             continue
@@ -352,6 +353,73 @@ def run_compose(chk, n):
                       " || FAMILY " + json.dumps({k: p_family(v) for k, v in fam.items()}) +
                       " || LIB " + json.dumps({d["name"]: p_family(d["template"]) for d in famprog["lib"]}) +
                       " || PAGE " + p_family(famprog["entry"]["page"]))
+
+
+def run_compose_directed(chk, n):
+    """the placements the property names, from schemas: extends-based components as siblings / in loops /
+    in fills under a parent with or without blocks, a page that extends, shared and distinct block names"""
+    from django.template import engines
+    loader = engines["django"].engine.template_loaders[0]
+    T = lambda s: {"t": "text", "s": s}
+    blk = lambda n, body: {"t": "block", "name": n, "body": body}
+    comp = lambda name, body=(): {"t": "comp", "name": name, "kwargs": [], "only": False, "dyn": False, "body": list(body)}
+    slot = lambda: {"t": "slot", "name": tplgen.lit("s1"), "default": True, "required": False, "data": [], "body": [T("d")]}
+    for i in range(n):
+        r = core.rng(PROP, "compose-directed", i)
+        shared = r.random() < 0.6
+        b1 = "title"
+        b2 = "title" if shared else "title2"
+        fam = {"card_base": [T("<h1>"), blk(b1, [T("Untitled")]), T("</h1><p>"), blk("body", [T("plain")]), T("</p>")],
+               "note_base": [T("<h2>"), blk(b2, [T("Note")]), T("</h2>"), blk("body" if shared else "nbody", [T("nb")])]}
+        lib = [{"name": "card", "data": [], "template": [{"t": "extends", "parent": "card_base"}] +
+                ([blk(b1, [T("Fancy"), {"t": "super"}])] if r.random() < 0.6 else []) + ([blk("body", [T("fb"), slot()])] if r.random() < 0.5 else [])},
+               {"name": "plaincard", "data": [], "template": [{"t": "extends", "parent": "card_base"}]},
+               {"name": "note", "data": [], "template": [{"t": "extends", "parent": "note_base"}] +
+                ([blk(b2, [T("N!")])] if r.random() < 0.5 else [])},
+               {"name": "box", "data": [], "template": [T("["), slot(), T("]")]}]
+        schema = r.randrange(5)
+        kids = [comp(r.choice(["card", "plaincard", "note"])) for _ in range(r.randint(2, 3))]
+        if schema == 0:      # siblings inside a parent that has no blocks
+            page = [comp("box", kids)]
+        elif schema == 1:    # siblings on the page
+            page = kids
+        elif schema == 2:    # in a loop inside a parent without blocks
+            page = [comp("box", [{"t": "for", "x": "v", "e": tplgen.var("xs"), "body": kids[:1]}] + kids[1:])]
+        elif schema == 3:    # parent without blocks inside a parent without blocks
+            page = [comp("box", [comp("box", kids), T("|")] + kids[:1])]
+        else:                # the page itself extends a base with other block names
+            fam["page_base"] = [T("P("), blk("pagebody", [T("pb")]), T(")")]
+            page = [{"t": "extends", "parent": "page_base"}, blk("pagebody", [comp("box", kids)])]
+        famprog = {"isolated": r.random() < 0.5, "lib": lib, "entry": {"page": page}, "ctx": [["xs", {"l": [tplgen.sval("1"), tplgen.sval("2")]}]], "raise": None}
+        family_json = [[k, v] for k, v in fam.items()] + [[d["name"], d["template"]] for d in lib] + [["__page__", page]]
+        roots = [d["name"] for d in lib] + ["__page__"]
+        rep = core.drive([{"op": "flatten", "family": family_json, "roots": roots}])[0]
+        flat = copy.deepcopy(famprog)
+        for d, t in zip(flat["lib"], rep["flat"]):
+            d["template"] = t
+        flat["entry"]["page"] = rep["flat"][-1]
+        for name, nodes in fam.items():
+            loader.templates_dict[name] = p_family(nodes)
+        old = tplgen.p_nodes
+        try:
+            tplgen.p_nodes = p_family
+            a = tplgen.run_real(famprog, limit=3.0)
+        finally:
+            tplgen.p_nodes = old
+            for name in fam:
+                loader.templates_dict.pop(name, None)
+        b = tplgen.run_real(flat, limit=3.0)
+        chk.count("compose-directed", 1, validated=2)
+        chk.branch(["schema:%d" % schema, "shared" if shared else "distinct"])
+        oa = a["err"] or tplgen.canon_real(a["out"], a["hash2name"])
+        ob = b["err"] or tplgen.canon_real(b["out"], b["hash2name"])
+        if oa != ob:
+            chk.violation("impl-violates-spec", "compose-directed", {"family_program": famprog, "family": {k: p_family(v) for k, v in fam.items()}},
+                          impl={"family": oa}, spec={"flattened": ob},
+                          note="family renders differently from its flattening (no extends-based template is nested in another one here) || " +
+                          " || ".join("%s :: %s" % (d["name"], p_family(d["template"])) for d in lib) + " || PAGE " + p_family(page) +
+                          " || FAMILY " + json.dumps({k: p_family(v) for k, v in fam.items()}))
+            return
 
 
 def run_flatten_stock(chk, n):
@@ -401,6 +469,7 @@ def run(tier: str) -> int:
     n = 400 if tier == "quick" else 8000
     run_stock(chk, n)
     run_flatten_stock(chk, n // 2)
+    run_compose_directed(chk, n // 2)
     run_compose(chk, n)
     chk.assumptions += [
         "stock stream: block tags have balanced quotes (the property's precondition); no {% verbatim %} with a quoted name (C09 finding)",
